@@ -65,10 +65,56 @@ def program_cases(draw):
     return {'kind': 'program', 'program': name, 'w': d.choice([64, 32]), 'version': d.int(0, 3), 'input': list(inp), 'configs': cfgs}
 
 
+@st.composite
+def page_walks(draw):
+    """a chain of ops spread over 20-90 distinct 16K-word pages, walked twice (the second round re-touches every page after
+    the page table grew and the direct-mapped cache evicted it); every op flips a data bit in yet another page."""
+    d = imagegen.D(draw)
+    w = d.choice([64, 64, 32])
+    ww = w.bit_length() - 1
+    npages = d.choice([20, 34, 40, 66, 90])
+    sd = d.int(0, (1 << 30) - 1)
+    style = d.choice(['consecutive', 'stride', 'random', 'random'])
+    span = (1 << 12) if w == 32 else d.choice([1 << 10, 1 << 20, 1 << 40])
+    base, stride = d.int(1, 40), d.choice([1, 3, 16, 17])
+    pages, seen = [], set()
+    k = 0
+    while len(pages) < npages:
+        sd = (sd * 6364136223846793005 + 1442695040888963407) & ((1 << 64) - 1)
+        pg = base + k * stride if style != 'random' else 1 + (sd >> 17) % span
+        k += 1
+        if pg not in seen and pg < span + 40 + 17 * 100:
+            seen.add(pg)
+            pages.append(pg)
+    offs = [2 * ((sd >> (3 + i % 40)) % 4000) for i in range(npages)]
+    # page 0 holds the entry op; page k: [op round 1][op round 2][data word pair]
+    segs = []
+    addr = [((pg << 14) + off) for pg, off in zip(pages, offs)]     # word address of the page's first op
+    def bit(wa):
+        return wa << ww
+    for i in range(npages):
+        tgt = addr[(i * 7 + 3) % npages] + 4            # the data pair of another page
+        fbit1 = bit(tgt + 1) + ww + 1 + (i % 4)          # a data bit of its jump word
+        fbit2 = bit(tgt) + (i % w)
+        nxt1 = bit(addr[i + 1]) if i + 1 < npages else bit(addr[0] + 2)
+        nxt2 = bit(addr[i + 1] + 2) if i + 1 < npages else bit(addr[i] + 2)   # the last op of round 2 halts on itself
+        if i + 1 == npages:
+            fbit2 = bit(tgt + 1) + ww + 2
+        segs.append([addr[i], 6, [fbit1, nxt1, fbit2, nxt2, 0, 0]])
+    segs.append([0, 2, [0, bit(addr[0])]])
+    segs.sort()
+    cfgs = [{'engine': 'native', 'flat': d.choice([None, 64, (1 << 14) + 1, 1 << 22]), 'no_flat': False, 'last_len': d.choice([None, 5]), 'measure': False},
+            {'engine': 'native', 'flat': None, 'no_flat': True, 'last_len': d.choice([None, None, 3]), 'measure': d.pct() < 30},
+            {'engine': d.choice(['fast', 'featured']), 'flat': None, 'no_flat': False, 'last_len': None, 'measure': False}]
+    return {'kind': 'pagewalk', 'w': w, 'segments': segs, 'input_bits': [], 'version': d.int(0, 3), 'layout': 'pagewalk:%s:%d' % (style, npages),
+            'configs': cfgs}
+
+
 def families(tier):
     q = tier == 'quick'
     return [{'name': 'guided-sparse', 'strategy': cases, 'examples': 1000 if q else 20000},
-            {'name': 'assembled-programs', 'strategy': program_cases, 'examples': 12 if q else 400}]
+            {'name': 'assembled-programs', 'strategy': program_cases, 'examples': 12 if q else 400},
+            {'name': 'page-walks', 'strategy': page_walks, 'examples': 12 if q else 400}]
 
 
 def program_image(case):
